@@ -154,6 +154,26 @@ def zero_rewards(game):
     return g
 
 
+def chain_tie_games():
+    """a Player-1 / Player-2 root with three successors whose (exact, one-sweep) reachability values chain-tie around a rounding
+    boundary: a and b agree to 6 digits, b and c differ by less than 5e-7, a and c round differently. 'Equal after rounding' is an
+    equivalence; 'within half a unit of the running best' is not, and then the listed set depends on the order of the row."""
+    import itertools
+    out = []
+    for base in (0.5, 0.25, 0.9):
+        vals = [base, base + 4e-7, base + 8e-7]
+        for kind in ("Player 1", "Player 2"):
+            for order in itertools.permutations(range(3)):
+                acts = ["a", "b", "c"]
+                F, S = 4, 5
+                tl = [[(acts[i], 1 + i) for i in order]] + [[(vals[i], F), (1 - vals[i], S)] for i in range(3)] + [[(1, F)], [(1, S)]]
+                fr = [None] + [[Fr(vals[i]), Fr(1 - vals[i])] for i in range(3)] + [[Fr(1)], [Fr(1)]]
+                out.append((dict(rewards=[0, 1, 100, 3, 0, 0], players=[kind, "Probabilistic", "Probabilistic", "Probabilistic",
+                                                                         "Probabilistic", "Probabilistic"],
+                                 transition_list=tl, final_states=[F]), dict(fr=fr, style="pattern")))
+    return out
+
+
 def extra_families(rng, base, count):
     """the families that came out of the seeded-change rounds, `count` games each, derived from `base` (games whose reward
     loop terminates): orphan states without a losing state; twins spelt with a shared list object (same owner / other
@@ -163,6 +183,10 @@ def extra_families(rng, base, count):
     for g, m in orphan_games(rng, count):
         # the same kind of acyclic game with rewards of the order 1e21 (exact binary64 values): far beyond sys.maxsize
         huge.append((dict(g, rewards=[float(x) * 2.0 ** 70 for x in g["rewards"]]), dict(m, huge=True)))
+    for g, m in orphan_games(rng, count):
+        # large rewards that differ by single units (1e10 + 0, 1, 2, 5): exactly representable, and different - a comparison
+        # with a RELATIVE tolerance would call them equal
+        huge.append((dict(g, rewards=[float(10 ** 10 + x) if x > 0 else 0.0 for x in g["rewards"]]), dict(m, offset=True)))
     return (orphan_games(rng, count) + twin_games(base, rng, count) + twin_games(base, rng, count, cross=True)
             + two_final_games(base, rng, count) + huge)
 
